@@ -149,7 +149,7 @@ func selfTest(ctx *core.Ctx) error {
 		{"MC_Copier_neg_f10once.cfg", "Once"}, {"MC_Copier_neg_recordafter.cfg", "Terminates"},
 		{"MC_Copier_neg_dropparms.cfg", "Shape"}, {"MC_Copier_neg_verbatim.cfg", "Shape"},
 		{"MC_Copier_neg_keynum.cfg", "Shape"}, {"MC_Copier_neg_cryptprobe.cfg", "Shape"},
-		{"MC_Copier_neg_inlinedasis.cfg", "Shape"},
+		{"MC_Copier_neg_inlinedasis.cfg", "Shape"}, {"MC_Copier_neg_boundbeforeread.cfg", "Shape"},
 	} {
 		res, err := ctx.TLC(core.TLCOpts{Dir: "graph", Module: "MC_Copier", Cfg: nc.cfg, Workers: 4, Mode: "negative-control", XssMB: 512})
 		if err != nil {
@@ -208,7 +208,7 @@ func selfTest(ctx *core.Ctx) error {
 		states += res.Distinct
 	}
 	for a, n := range zero {
-		if n == 2 && a != "CopyDictNilPanics" {
+		if n == 2 && a != "CopyDictNilPanics" && a != "ResolveGiveUp" { // these two exist only in negative controls, see (ii)
 			return core.Infra("self-test: action %s is never taken", a)
 		}
 	}
